@@ -1,8 +1,15 @@
 from checks.storelib import *
 from checks import storelib
 PROP = "C04"
-READY = False
-LEVEL_TEXT = "pending"; LEVEL_NOTE = "pending"; TECHNIQUE = "Coq proof + history differential"
+READY = True
+LEVEL_TEXT = ("Machine-checked proof (Coq) about the model of read_committed_events (Model/Store.v rc_loop): for EVERY record list a group is returned only with a commit record of the "
+              "same transaction right after its consecutive event records (C04_commit_required, C04_no_commit_no_return); on every writer-produced log cut at any crash point a read at an "
+              "event offset returns exactly the transaction's events from that event on and nothing of a torn transaction (C04_siblings, C04_torn_none, C04_all_or_nothing, C04_crash_reads); "
+              "the stream filter keeps exactly the matching events (C04_filter). Tie to the code: histories with half-written (failed, truncated) and crash-torn transactions are executed on the "
+              "real Database (every tear position incl. inside a record) and compared op by op with the extracted model and with the abstract spec.")
+LEVEL_NOTE = ("Trusted: Coq kernel, extraction, OCaml driver, Rust harness (incl. how it tears files). The theorem is about the record-level model; byte-level framing/CRC is C17's. "
+              "One corner is kept visible (Example C04_ex_foreign_flagged): on arbitrary non-writer logs a flagged event following uncommitted events is returned inside that group; unreachable on writer-produced logs.")
+TECHNIQUE = "Coq proof (induction over record lists) of a hand-written Gallina model + history/crash-state differential against the real Database"
 RULE = ("histories with multi-event transactions, failed (half-written, truncated) transactions and crashes that tear the last transaction at every record boundary / inside a record; "
         "then read_transaction, read_event and scans; non-trivial = >=2 appends, one succeeded")
 monitor_e = storelib.monitor_kinds({"RE", "RT", "SS", "SP"}, "atomic")
